@@ -20,16 +20,20 @@ macro "bool_bridge" : tactic =>
 theorem natCast_beq (a b : Nat) : ((a : Int) == (b : Int)) = (a == b) := by
   rw [Bool.eq_iff_iff]; simp only [beq_iff_eq]; omega
 
-/-! ### `chunks` -/
+/-! ### `chunks`
+
+`∀ n k idx, Gen = Model`: the translated expression (whatever algebraic form the source uses — nested conditionals,
+`min`, `quotient * idx + …`) is unfolded, quotient and remainder are generalised, and the equality is left to case
+analysis + ring arithmetic (`grind`).  A formula that is not equal for all arguments does not pass. -/
 
 theorem chunks_si_eq (n k idx : Int) (hk : 0 ≤ k) : chunks_si n k idx = chunkStartI n k idx := by
   simp only [chunks_si, chunkStartI, Int.fdiv_eq_ediv_of_nonneg _ hk, Int.fmod_eq_emod_of_nonneg _ hk,
-    decide_eq_true_eq] <;>
+    decide_eq_true_eq, pyMin, pyMax] <;>
     (generalize n / k = d; generalize n % k = r; grind)
 
 theorem chunks_stop_eq (n k idx : Int) (hk : 0 ≤ k) : chunks_stop n k idx = chunkStopI n k idx := by
   simp only [chunks_stop, chunkStopI, chunkStartI, Int.fdiv_eq_ediv_of_nonneg _ hk,
-    Int.fmod_eq_emod_of_nonneg _ hk, decide_eq_true_eq] <;>
+    Int.fmod_eq_emod_of_nonneg _ hk, decide_eq_true_eq, pyMin, pyMax] <;>
     (generalize n / k = d; generalize n % k = r; grind)
 
 /-- the `Int` formulas agree with the `Nat` model the theorems are about -/
@@ -141,7 +145,7 @@ epoch after epoch (`Sampler.infinitePrefix`) -/
 theorem dist_structure_eq : dist_structure = expectedDistStructure := rfl
 /-- the concat sampler draws the member with weights = lengths and advances that member's generator
 (`Sampler.concatRun`) -/
-theorem concat_next_eq : concat_next = expectedConcatNext := rfl
+theorem concat_next_eq : concat_next = expectedConcatNextFlow := rfl
 
 /-! ### phase 3: the object across iterators -/
 
@@ -157,9 +161,10 @@ theorem bvs_other_method_writes_eq : bvs_other_method_writes = [] := by decide
 theorem bvs_init_iterator_attrs_eq : bvs_init_iterator_attrs = [] := by decide
 theorem seq_method_writes_eq : seq_method_writes = [] := by decide
 
-/-- the volume limit is applied to the list that is then distributed over the ranks (`rankVols`:
+/-- data flow of `DistributedSequentialSampler.__init__` (locals inlined): communication defaults → volume limit →
+`chunks` → this rank's chunk; the limit is applied to the list that is then distributed over the ranks (`rankVols`:
 `chunks (applyLimit …) world`), not to a rank's chunk -/
-theorem seq_init_order_eq : seq_init_order = expectedSeqInitOrder := by decide
+theorem seq_init_order_eq : seq_init_order = expectedSeqInitOrder := rfl
 
 /-- seed / rank / world size of `DistributedSampler`: a missing seed is replaced by the seed shared by all processes -/
 theorem dist_init_seed_eq : dist_init_seed = expectedDistInit := by decide
